@@ -99,7 +99,7 @@ def run(rep, tier, replay):
         rep.add("rss_series")
         W = ts[sizes[-1]].case.W
         # linear bound from the totals the run logs itself (Start event)
-        start = json.loads(open(ts[sizes[-1]].trace).readline())
+        start = next(json.loads(l) for l in open(ts[sizes[-1]].trace) if '"e":"Start"' in l)
         if key[0] == "d":
             lin = W * (4 * 900000 + 70000) + start["tout"] * start["og"] + start["tin"] * start["ig"]
         else:
